@@ -27,6 +27,9 @@ from schwifty.checksum import algorithms
 import schwifty
 
 def snapshot():
+    """(core, aux): core = the bundled data in effect (registries, algorithm objects); aux = other module-level
+    containers (memo tables ...).  A call that changes core has modified what later results are computed from; a
+    change of aux alone is harmless unless some outcome differs (that is what the histories compare)."""
     h = hashlib.sha256()
     for name in sorted(registry._registry, key=str):
         h.update(repr(name).encode())
@@ -38,13 +41,14 @@ def snapshot():
             h.update(repr(v).encode())
     for k in sorted(algorithms):
         h.update(k.encode()); h.update(repr(sorted((a, repr(b)) for a, b in vars(algorithms[k]).items() if a != "_scratch")).encode())
+    g2 = hashlib.sha256()
     for mname in sorted(m for m in sys.modules if m.startswith("schwifty")):
         mod = sys.modules[mname]
         for g in sorted(vars(mod)):
             v = vars(mod)[g]
             if isinstance(v, (dict, list, set)) and not g.startswith("__") and g not in ("_registry", "algorithms"):
-                h.update((mname + "." + g + repr(v)[:100000]).encode())
-    return h.hexdigest()
+                g2.update((mname + "." + g + repr(v)[:100000]).encode())
+    return h.hexdigest(), g2.hexdigest()
 
 def call(spec):
     kind = spec[0]
@@ -69,6 +73,35 @@ def call(spec):
         return ["raise", type(ex).__name__]
 
 calls = json.load(open(sys.argv[2]))
+if mode == "alone":
+    # every call on pristine state: a forked child per call (copy-on-write image of the freshly imported library)
+    import os
+    out = {}
+    for i, spec in enumerate(calls):
+        r, w = os.pipe()
+        pid = os.fork()
+        if pid == 0:
+            os.close(r)
+            try:
+                data = json.dumps(call(spec)).encode()
+            except BaseException as ex:
+                data = json.dumps(["crash", type(ex).__name__]).encode()
+            os.write(w, data)
+            os._exit(0)
+        os.close(w)
+        buf = b""
+        while True:
+            chunk = os.read(r, 65536)
+            if not chunk:
+                break
+            buf += chunk
+        os.close(r)
+        os.waitpid(pid, 0)
+        out[str(i)] = json.loads(buf.decode()) if buf else ["crash", "no output"]
+    out["__state_changed__"] = False
+    out["__aux_changed__"] = False
+    print(json.dumps(out))
+    sys.exit(0)
 order = list(range(len(calls)))
 if mode == "reversed": order.reverse()
 elif mode == "shuffled":
@@ -82,7 +115,9 @@ for i in order:
         out.setdefault("__unstable__", []).append([i, first[i], r])
     first.setdefault(i, r)
     out[str(i)] = r
-out["__state_changed__"] = (snapshot() != s0)
+s1 = snapshot()
+out["__state_changed__"] = (s1[0] != s0[0])
+out["__aux_changed__"] = (s1[1] != s0[1])
 print(json.dumps(out))
 '''
 
@@ -138,7 +173,9 @@ def call_list(seed):
                 bank = "1" * (w.get("bank_code", [0, 0])[1] - w.get("bank_code", [0, 0])[0])
                 acct = "2" * (w.get("account_code", [0, 0])[1] - w.get("account_code", [0, 0])[0])
                 calls.append(["gen", m, bank, acct])
-    for cc in ("DE", "PL", "SI", "GB", "NO", "FR", ""):
+    from schwifty import registry as _registry
+    bankless = [cc for cc in ccs if cc not in _registry.get("country") and "positions" in tab[cc]][:3]
+    for cc in ["DE", "PL", "SI", "GB", "NO", "FR", ""] + bankless + [""]:
         for sd in (1, 2):
             calls += [["rand", cc, sd, True], ["rand", cc, sd, False]]
     # component accessors of every country (reads with defaults on sparse table entries), around seeded generation
@@ -186,7 +223,7 @@ def native_history(seed):
         path = fp.name
     outs = {}
     try:
-        for mode in ("inorder", "reversed", "shuffled"):
+        for mode in ("alone", "inorder", "reversed", "shuffled"):
             r = subprocess.run([sys.executable, "-c", HISTORY_SCRIPT, mode, path], capture_output=True, text=True,
                                timeout=600, env=dict(os.environ, PYTHONPATH=root + os.pathsep + os.environ.get("PYTHONPATH", "")))
             if r.returncode != 0:
@@ -203,7 +240,9 @@ def native_history(seed):
         for u in outs[m].get("__unstable__", []):
             problems.append(dict(call=calls[u[0]], outcomes={"first": u[1], "later in the same process": u[2]}, history=m))
         if outs[m].get("__state_changed__"):
-            problems.append(dict(call="(whole sequence)", outcomes={m: "process-wide library state changed"}))
+            problems.append(dict(call="(whole sequence)", outcomes={m: "the calls changed the registries / algorithm objects "
+                                                                       "(the bundled data in effect) of the process"}))
+    native_history.aux_changed = any(outs[m].get("__aux_changed__") for m in outs)
     return calls, problems, ""
 
 
@@ -232,9 +271,9 @@ def main(seed, tier):
         results.append(dict(task="native history run", obligations=[], functions={}, files={}, paths=0,
                             error=f"checker fault: {err}", spec=None))
     else:
-        hist.append(dict(name=f"{len(calls)} calls give identical outcomes under three histories in fresh processes and "
+        hist.append(dict(name=f"{len(calls)} calls give the outcome they give ALONE (each on pristine state, forked) under three histories in fresh processes and "
                               "leave the process-wide state unchanged (bounded)", kind="bounded",
-                         status="discharged" if not problems else "refuted", backend="cpython (3 fresh processes)", secs=0.0,
+                         status="discharged" if not problems else "refuted", backend="cpython (alone-per-call forks + 3 fresh processes)", secs=0.0,
                          witness=problems[0] if problems else None,
                          detail="" if not problems else f"replayed natively: {json.dumps(problems[0])[:500]}"))
     results.append(dict(task="frames and history", obligations=frame + hist, functions={}, files={}, paths=0, error=None,
@@ -249,7 +288,9 @@ def main(seed, tier):
                      "(the one writer of registry._registry) is not reached after import (checked: has(name) at run time)",
                      "the call trees are those of C14's task list; the bounded history run covers validation, generation, "
                      "seeded random generation, lookups and failing calls"],
-        extra_cov=dict(history_calls=len(calls), history_modes=["inorder", "reversed", "shuffled with repetitions"],
-                       bounded_parts=[dict(what="native history run in 3 fresh processes", calls=len(calls))]),
+        extra_cov=dict(history_calls=len(calls), history_modes=["alone (one forked pristine process image per call)", "inorder", "reversed",
+                                                               "shuffled with repetitions"],
+                       module_level_memo_changed=bool(getattr(native_history, "aux_changed", False)),
+                       bounded_parts=[dict(what="native history run: every call alone vs in 3 histories", calls=len(calls))]),
         not_proved_note="functional contracts of the call trees proved under havocked scratch state and cache oracle + "
                         "write frames; bounded native history comparison")
